@@ -3,8 +3,13 @@
 proof:  Verif.Props.C13 — file_history_independent / run_history_independent / run_prefix_history_independent on the
         faithful engine model for rules whose starting_new_file is a total reset; exceptions_pinned, reset_rhs_const,
         no_start_no_state over Verif.Gen.RuleFields (regenerated from the rule sources every run).
-tie:    translator each run; dynamic cross-check of the table's abstraction (state snapshot of every rule instance
-        after starting_new_file: fresh instance vs after a document); engine correspondence with leaky / resetting probes.
+        statics_reset / statics_exceptions_pinned / statics_config_pinned / statics_coverage over Verif.Gen.ParserStatics
+        (class-/module-level statics and instance attributes of the long-lived parser / shell objects, regenerated from
+        the sources every run) and parser_state_history_free (what the classification buys).
+tie:    translators each run; dynamic cross-check of the tables' abstraction (state snapshot of every rule instance
+        after starting_new_file: fresh instance vs after a document; snapshot of ALL long-lived parser / shell state right
+        after the per-document initialisation in a fresh process vs after documents — tools/staticslib.py);
+        engine correspondence with leaky / resetting probes.
 oracle: differential on the real application: ordered pairs and triples of documents in one invocation vs each alone,
         scan and fix, and repeated use of one PyMarkdownApi object.
 """
@@ -22,8 +27,13 @@ STATEFUL_DOCS = [
     "---\ntitle: x\n---\n\n# h\n",
     # a document whose tokenization fails AFTER pragma lines were collected (the run continues with --continue-on-error)
     "<!-- pyml disable-num-lines 50 md012,md009,md013,md041,md047,md022,md001-->\n\ntext\n\n- \t1. \n",
-    "<!-- pyml disable-next-line md041-->\ntext\n\n[r]: /u\n\n-\t\n", "A very long line " * 8 + "\n", "`code ` and ` code`\n\n[link ]( /u )\n",
+    "<!-- pyml disable-next-line md041-->\ntext\n\n[r]: /u\n\n-\t\n",
+    # a pragma that does not compile (PluginManager.number_of_pragma_failures, log_pragma_failure)
+    "<!-- pyml disable-next-line not-a-rule-->\ntext\n\n<!-- pyml bogus-command md013-->\nmore\n", "A very long line " * 8 + "\n", "`code ` and ` code`\n\n[link ]( /u )\n",
 ]
+
+# pool documents whose tokenization fails after state has been collected (quick tier: always paired with every other document)
+ABORTED_DOCS = [d for d in STATEFUL_DOCS if d.startswith("<!-- pyml disable-num-lines 50") or d.endswith("[r]: /u\n\n-\t\n")]
 
 
 def _scan(argv, cwd):
@@ -44,12 +54,18 @@ def _seq_task(task):
     mode, seq, extra = task          # seq: list of (name, text)
     with implib.workspace() as ws:
         d = os.path.join(ws, "s"); os.makedirs(d)
+        # pymarkdown processes the files of one invocation in SORTED path order, so the position in the sequence is made the
+        # leading path component (`0/p033.md 1/p028.md`): (a, b) and (b, a) really are two different histories.
+        multi = len(seq) > 1
+        paths = {n: (f"{i}/{n}" if multi else n) for i, (n, _) in enumerate(seq)}
         for n, t in seq:
-            implib.write(os.path.join(d, n), t)
+            implib.write(os.path.join(d, paths[n]), t)
         names = [n for n, _ in seq]
-        code, out, err = _scan(["--continue-on-error"] + extra + [mode] + names, d)
-        after = {n: implib.read_bytes(os.path.join(d, n)) for n in names}
-    return per_file_output(out, err, names), after
+        code, out, err = _scan(["--continue-on-error"] + extra + [mode] + [paths[n] for n in names], d)
+        after = {n: implib.read_bytes(os.path.join(d, paths[n])) for n in names}
+    per = per_file_output(out, err, [paths[n] for n in names])
+    # the same lines with the position prefix removed, keyed by the pool name (comparable with the file alone)
+    return {n: [l.replace(paths[n], n, 1) for l in per[paths[n]]] for n in names}, after
 
 
 def differential(ctx, pool, seqs, mode, extra):
@@ -177,8 +193,48 @@ def snapshot_check(ctx, docs_):
     return evals, diffs
 
 
+def statics_check(ctx, texts, orders=None):
+    """Dynamic cross-check of Verif.Gen.ParserStatics: in ONE fresh process, all long-lived parser / shell state right after
+    the per-document initialisation must equal the state at the very first document, whatever was processed before
+    (scan and fix, forward and backward through the pool, a new application stack per pass = API-object reuse).
+    A surviving difference must be a baseline exception of Verif/Model/ParserStaticsTable.lean."""
+    import staticslib as SL
+    rows = SL.table(vlib.LEAN)
+    if not rows:
+        ctx.broken.append("statics table Verif/Gen/ParserStatics.lean is empty or unreadable")
+        return {"evaluations": 0}, []
+    exc, _cfg = SL.baseline(vlib.LEAN)
+    allowed = {(a, b) for a, b, _ in exc}
+    byid = {(r["owner"], r["name"]): r for r in rows}
+    idx = list(range(len(texts)))
+    passes = orders or [("scan", idx), ("fix", idx), ("api", idx), ("scan", idx[::-1]), ("fix", idx[::-1]), ("api", idx[::-1])]
+    res = SL.run_worker(vlib.REPO, texts, passes, SL.skip_sets(rows))
+    problems, absorbed = [], collections.Counter()
+    seen = set()
+    for d in res["diffs"]:
+        owner0, name = d["key"].split(".", 1) if d["key"].count(".") == 1 else d["key"].rsplit(".", 1)
+        row = next((byid[(o, name)] for o in d["owners"] + [owner0] if (o, name) in byid), None)
+        tag = d["tag"]
+        if row is not None and (row["owner"], row["name"]) in allowed:
+            absorbed[row["owner"] + "." + row["name"]] += 1
+            continue
+        sym = "untracked-long-lived-state" if row is None else "state-survives-reset"
+        sig = (d["key"], sym)
+        if sig in seen:
+            continue
+        seen.add(sig)
+        problems.append((d, sym, row))
+    for e in res["errors"][:3]:
+        ctx.broken.append(f"statics worker: per-document function raised {e['error'][:120]} on {e['tag']['doc']!r}")
+    observed = set(res["key_list"])
+    stats = {"evaluations": res["evaluations"], "keys_per_snapshot": res["keys"], "passes": len(passes), "documents": len(texts),
+             "table_rows": len(rows), "table_rows_observed": sum(1 for r in rows if f"{r['owner']}.{r['name']}" in observed),
+             "absorbed_by_baseline_exceptions": dict(absorbed), "differences_outside_baseline": len(problems)}
+    return stats, problems
+
+
 def run(ctx):
-    ctx.lean_stage(["rule_fields"], ["Verif.Props.C13"])
+    ctx.lean_stage(["rule_fields", "parser_statics"], ["Verif.Props.C13"])
     stats_e, samples = c07.engine_correspondence(ctx, 25 if ctx.quick() else 300, tag="history")
     res = docs.rule_resources()
     # pool: repo rule documents (one per rule directory at least) + parser-state documents
@@ -196,7 +252,10 @@ def run(ctx):
     fixed = _r.Random(20260929)                  # the triple set is part of the space definition, not of the seed
     triples = list(dict.fromkeys(tuple(fixed.sample(names, 3)) for _ in range(800)))
     if ctx.quick():
-        pairs = docs.sample(ctx.rng, pairs, 700)
+        # seeded sample of the pairs + every pair that STARTS with a document whose processing is aborted midway (those are the
+        # histories that leave the most state behind)
+        poison = [n for n in names if pool[n] in ABORTED_DOCS]
+        pairs = list(dict.fromkeys(docs.sample(ctx.rng, pairs, 700) + [(a, b) for a in poison for b in names if b != a]))
         triples = docs.sample(ctx.rng, triples, 60)
     ids, _ = E.builtin_meta()
     total_evals, total_nt, fails = 0, set(), []
@@ -208,6 +267,15 @@ def run(ctx):
     for (rid, t, ks) in sn_diffs:
         ctx.broken.append(f"state snapshot: {rid} keeps {ks} across starting_new_file")
         ctx.report({"rule": rid, "doc": t}, "state-survives-reset", {"fields": ks, "oracle": "vars(rule) after starting_new_file: fresh vs after a document"})
+    st_stats, st_problems = statics_check(ctx, texts)
+    for d, sym, row in st_problems:
+        tag = d["tag"]
+        ctx.broken.append(f"statics snapshot: {d['key']} differs after a document ({sym})")
+        ctx.report({"mode": tag["mode"], "sequence": [tag["prev"] or "x\n", tag["doc"] or "x\n"], "file": tag["doc"] or "x\n", "state": d["key"]}, sym,
+                   {"snapshot_at": d["at"], "fresh_process_value": d["reference"], "value_after_history": d["now"],
+                    "table_row": row, "oracle": "long-lived parser/shell state right after the per-document initialisation: "
+                                                "first document of a fresh process vs after other documents; a difference must be "
+                                                "a baseline exception of Verif/Model/ParserStaticsTable.lean"})
     # API object reuse
     from pymarkdown.api import PyMarkdownApi
     api_fail = []
@@ -230,9 +298,12 @@ def run(ctx):
         ctx.violation({"oracle": "Verif.Props.C13 (engine theorems or regenerated reset table vs baseline) no longer checks; the pair/triple "
                                  "differential and the state snapshots found no dependence on history"}, no_input=True)
     ctx.assumptions += ["the reset table is a syntactic abstraction of the rule sources; cross-checked by state snapshots on every run",
+                        "the parser/shell statics table is a syntactic abstraction (name-resolved call graph, one-step aliases, no setattr); "
+                        "cross-checked on every run by whole-state snapshots in a fresh process; parser_state_history_free assumes that the "
+                        "per-document code leaves `constant` rows alone and never reads the 6 baseline exceptions into a per-file result",
                         "the 20 baseline (rule, field) exceptions are claimed only on the explored pairs/triples"]
     ctx.write_evidence({"correspondence": {"evaluations": total_evals, "distinct_nontrivial": len(total_nt), "pool": len(pool),
-                                           "pairs": len(pairs), "triples": len(triples), "snapshot_evaluations": sn_evals,
+                                           "pairs": len(pairs), "triples": len(triples), "snapshot_evaluations": sn_evals, "statics_snapshot": st_stats,
                                            "rule": "ordered pairs/triples of pool documents in one invocation vs alone (scan default, scan all rules, fix); "
                                                    "non-trivial = the file has output or is changed by fix", "exhaustive": not ctx.quick()},
                         "engine_correspondence": stats_e,
@@ -242,6 +313,20 @@ def run(ctx):
 def replay(ctx, path):
     rp = json.load(open(path))
     inp = rp.get("input", {})
+    if "state" in inp and "sequence" in inp:
+        with vlib.build_lock():
+            err = vlib.translate(["parser_statics"])["parser_statics"]     # the table of the tree being replayed against
+        if err:
+            print("translator parser_statics:", err)
+            print(f"VIOLATION property=C13 replay={path}")
+            return 1
+        stats, problems = statics_check(ctx, inp["sequence"], orders=[(inp["mode"] if inp["mode"] in ("scan", "fix") else "scan", [0, 1])])
+        hit = [d["key"] for d, sym, row in problems]
+        print(hit)
+        if inp["state"] in hit:
+            print(f"VIOLATION property=C13 replay={path}")
+            return 1
+        return 0
     if "sequence" not in inp:
         print("replay:", rp.get("broken") or inp)
         return 1
